@@ -3,6 +3,7 @@ package cache
 import (
 	"fmt"
 	"os"
+	"sync"
 
 	"github.com/open-policy-agent/opa/v1/ast"
 	outil "github.com/open-policy-agent/opa/v1/util"
@@ -55,6 +56,9 @@ type Cache struct {
 	// intended to be used for completions in other files.
 	// fileRefs is expected to be updated when a file is successfully parsed.
 	fileRefs *concurrent.Map[string, map[string]types.Ref]
+
+	// deleteMu makes IfPresent atomic with respect to Delete and Rename
+	deleteMu sync.Mutex
 }
 
 func NewCache() *Cache {
@@ -127,6 +131,9 @@ func (c *Cache) GetContentAndModule(fileURI string) (string, *ast.Module, bool) 
 }
 
 func (c *Cache) Rename(oldKey, newKey string) {
+	c.deleteMu.Lock()
+	defer c.deleteMu.Unlock()
+
 	if content, ok := c.fileContents.Get(oldKey); ok {
 		c.fileContents.Set(newKey, content)
 		c.fileContents.Delete(oldKey)
@@ -305,9 +312,29 @@ func (c *Cache) SetSuccessfulParseLineCount(fileURI string, count int) {
 	c.successfulParseLineCounts.Set(fileURI, count)
 }
 
+// IfPresent runs update if the contents of the file are (still) cached, and reports whether it did. The
+// check and the update are atomic with respect to Delete: a worker that has been parsing or linting a
+// file for a while uses this to store its results, so that nothing is re-created for a file that was
+// deleted or renamed in the meantime.
+func (c *Cache) IfPresent(fileURI string, update func()) bool {
+	c.deleteMu.Lock()
+	defer c.deleteMu.Unlock()
+
+	if _, ok := c.fileContents.Get(fileURI); !ok {
+		return false
+	}
+
+	update()
+
+	return true
+}
+
 // Delete removes all cached data for a given URI. Ignored file contents are
 // also removed if found for a matching URI.
 func (c *Cache) Delete(fileURI string) {
+	c.deleteMu.Lock()
+	defer c.deleteMu.Unlock()
+
 	c.fileContents.Delete(fileURI)
 	c.ignoredFileContents.Delete(fileURI)
 	c.modules.Delete(fileURI)
